@@ -123,14 +123,26 @@ example : S.denote (.only (.rename (.direct demoLib none) [("a", "c")]) ["a", "c
 
 /-! ## 3. several sets: the union; independence of the order of the export lists -/
 
-/-- An import declaration with several sets (each over an instantiated or native library) defines,
-in the target frame `ρ`, exactly the bindings of the union map of the sets' denotations — for a
-name bound by several sets the LAST set wins — and leaves every other name of that frame, every
-other frame, all parent links, the vectors and the output untouched; of the rest of the state only
-the instance cache may grow. -/
+/-- Admissible unions never clash, and neither do unions in which any two bindings of one name
+are equal (`importEq`): the hypothesis `¬ S.Clash` of `import_union` in its two usual forms. -/
+theorem no_clash_of_compatible (eq : Value → Value → Bool) (bs : S.Bindings) :
+    (S.Admissible bs → S.Compatible eq bs) ∧ (S.Compatible eq bs → ¬ S.Clash eq bs) :=
+  ⟨Lib.compatible_of_admissible, Lib.not_clash_of_compatible⟩
+
+example : S.Compatible (fun _ _ => false) [("a", .num (.int 1)), ("b", .num (.int 1))] :=
+  (no_clash_of_compatible _ _).1 (by simp [S.Admissible])
+
+/-- An import declaration with several sets (each over an instantiated or native library) whose
+concatenated denotations do not clash — no binding differs (`importEq`: the derived `PartialEq` of
+values) from the binding of the same name before it; in particular when the union is `Admissible`,
+or when bindings of one name are equal — defines, in the target frame `ρ`, exactly the bindings of
+the union map of the sets' denotations (for a name bound several times, the last binding) and
+leaves every other name of that frame, every other frame, all parent links, the vectors and the
+output untouched; of the rest of the state only the instance cache may grow. -/
 theorem import_union (sets : List ImportSet) (fuel : Nat) (st : State) (ρ : Nat) (bs : S.Bindings)
     (hfuel : fuelNeededAll sets + 1 ≤ fuel) (hip : ∀ s ∈ sets, S.leaf s ∉ st.inProgress)
-    (hd : S.denoteAll sets (exportsOf st) = some bs) (hρ : ρ < st.store.frames.size) :
+    (hd : S.denoteAll sets (exportsOf st) = some bs) (hok : ¬ S.Clash (importEq st) bs)
+    (hρ : ρ < st.store.frames.size) :
     ∃ st', evalImport fuel st sets ρ = (.ok (), st') ∧
       (∀ x, st'.store.binding ρ x = S.override (S.asMap bs) (st.store.binding ρ) x) ∧
       (∀ i, i ≠ ρ → st'.store.frames[i]? = st.store.frames[i]?) ∧
@@ -140,7 +152,15 @@ theorem import_union (sets : List ImportSet) (fuel : Nat) (st : State) (ρ : Nat
       st' = { st with store := st'.store, instances := st'.instances } ∧
       (∀ n, exportsOf st' n = exportsOf st n) := by
   obtain ⟨fuel, rfl⟩ : ∃ k, fuel = k + 1 := ⟨fuel - 1, by omega⟩
-  obtain ⟨st1, h1, sp⟩ := importSets_spec sets fuel st [] bs (by omega) hip hd
+  obtain ⟨st1, sp, hres⟩ := importSets_spec sets fuel st [] bs (by omega) hip hd
+  have hnc : Lib.clashB (importEq st) (fun y => ([] : List (String × Value)).lookup y) bs = false := by
+    have := mt (Lib.clash_iff (importEq st) bs).2 hok
+    simpa using this
+  have h1 : evalImportSets fuel st sets [] =
+      (.ok (bs.foldl (fun a p => assocInsert a p.1 p.2) []), st1) := by
+    rcases hres with ⟨hc, _⟩ | ⟨_, h⟩
+    · rw [hnc] at hc; cases hc
+    · exact h
   have hsame : st1 = { st with instances := st1.instances } := sp.same
   have hstore : st1.store = st.store := by rw [hsame]
   have hdef := Lib.foldl_define_spec ρ (bs.foldl (fun a p => assocInsert a p.1 p.2) []) st1.store
@@ -159,63 +179,125 @@ theorem import_union (sets : List ImportSet) (fuel : Nat) (st : State) (ρ : Nat
   · simp only []; rw [hsame]
   · exact sp.exports
 
+/-- `a` is imported twice with the same value (no clash), `d` is `a` renamed -/
 example : ∃ st', evalImport 7 { demoState with store := Store.root }
-    [.direct demoLib none, .rename (.only (.direct demoLib none) ["a"]) [("a", "b")]] 0 = (.ok (), st') ∧
-    st'.store.binding 0 "b" = some (.num (.int 1)) := by
+    [.direct demoLib none, .rename (.only (.direct demoLib none) ["a"]) [("a", "d")],
+     .only (.direct demoLib none) ["a"]] 0 = (.ok (), st') ∧
+    st'.store.binding 0 "d" = some (.num (.int 1)) := by
   obtain ⟨st', h, hb, -⟩ := import_union
+    [.direct demoLib none, .rename (.only (.direct demoLib none) ["a"]) [("a", "d")],
+     .only (.direct demoLib none) ["a"]] 7
+    { demoState with store := Store.root } 0
+    [("a", .num (.int 1)), ("b", .num (.int 2)), ("d", .num (.int 1)), ("a", .num (.int 1))]
+    (by simp [fuelNeededAll, S.fuelNeeded]) (by simp [demoState])
+    (by simp [S.denoteAll, S.denote, exportsOf, demoState, demoLib, libLookup, S.renameTarget])
+    (by
+      rw [Lib.clash_iff]
+      simp [Lib.clashB, Lib.upd, importEq, Prim.derivedEq, Num.eq, Num.upcast])
+    (by simp [Store.root])
+  refine ⟨st', h, ?_⟩
+  rw [hb]
+  simp [S.override, S.asMap, List.lookup]
+
+/-- One name imported with two different bindings is an error: if, in the concatenated denotations
+of the sets, some binding differs (`importEq`) from the binding of the same name before it, then
+`evalImport` fails with `.other` (`LogicError::Extension`), defines nothing, and changes nothing
+but possibly the instance cache. -/
+theorem import_conflict_is_error (sets : List ImportSet) (fuel : Nat) (st : State) (ρ : Nat)
+    (bs : S.Bindings) (hfuel : fuelNeededAll sets + 1 ≤ fuel)
+    (hip : ∀ s ∈ sets, S.leaf s ∉ st.inProgress)
+    (hd : S.denoteAll sets (exportsOf st) = some bs) (hclash : S.Clash (importEq st) bs) :
+    ∃ st', evalImport fuel st sets ρ = (.error (.other, none), st') ∧
+      st' = { st with instances := st'.instances } ∧ (∀ n, exportsOf st' n = exportsOf st n) := by
+  obtain ⟨fuel, rfl⟩ : ∃ k, fuel = k + 1 := ⟨fuel - 1, by omega⟩
+  obtain ⟨st1, sp, hres⟩ := importSets_spec sets fuel st [] bs (by omega) hip hd
+  have hc : Lib.clashB (importEq st) (fun y => ([] : List (String × Value)).lookup y) bs = true := by
+    have := (Lib.clash_iff (importEq st) bs).1 hclash
+    simpa using this
+  have h1 : evalImportSets fuel st sets [] = (.error (.other, none), st1) := by
+    rcases hres with ⟨_, h⟩ | ⟨hn, _⟩
+    · exact h
+    · rw [hc] at hn; cases hn
+  exact ⟨st1, by rw [evalImport, h1], sp.same, sp.exports⟩
+
+/-- `b` is 2 in the library and 1 as the renamed `a` -/
+example : ∃ st', evalImport 7 { demoState with store := Store.root }
+    [.direct demoLib none, .rename (.only (.direct demoLib none) ["a"]) [("a", "b")]] 0 =
+      (.error (.other, none), st') := by
+  obtain ⟨st', h, -⟩ := import_conflict_is_error
     [.direct demoLib none, .rename (.only (.direct demoLib none) ["a"]) [("a", "b")]] 7
     { demoState with store := Store.root } 0
     [("a", .num (.int 1)), ("b", .num (.int 2)), ("b", .num (.int 1))]
     (by simp [fuelNeededAll, S.fuelNeeded]) (by simp [demoState])
     (by simp [S.denoteAll, S.denote, exportsOf, demoState, demoLib, libLookup, S.renameTarget])
-    (by simp [Store.root])
-  refine ⟨st', h, ?_⟩
-  rw [hb]
-  simp [S.override, S.asMap]
+    (by
+      rw [Lib.clash_iff]
+      simp [Lib.clashB, Lib.upd, importEq, Prim.derivedEq, Num.eq, Num.upcast])
+  exact ⟨st', h⟩
 
 /-- "The same on every run": the iteration order of the `HashMap`s that hold a library's exports
 enters only as the ORDER of its export list. Let two states have the same store and give every
 library the same exports up to a permutation. If every set of the declaration is admissible (no
-set binds a name twice), the import defines the same bindings in frame `ρ` in both — as finite
-maps, name by name — and every lookup from every frame agrees afterwards. -/
+single set binds a name twice), the import has the SAME OUTCOME in both — success in both, or the
+conflicting-bindings error `.other` in both — and afterwards every frame binds the same names to
+the same values and every lookup from every frame agrees. -/
 theorem import_deterministic (sets : List ImportSet) (fuel : Nat) (st₁ st₂ : State) (ρ : Nat)
     (bs : S.Bindings) (hfuel : fuelNeededAll sets + 1 ≤ fuel)
     (hip₁ : ∀ s ∈ sets, S.leaf s ∉ st₁.inProgress) (hip₂ : ∀ s ∈ sets, S.leaf s ∉ st₂.inProgress)
     (hstore : st₂.store = st₁.store) (hperm : S.PermExports (exportsOf st₁) (exportsOf st₂))
     (hd : S.denoteAll sets (exportsOf st₁) = some bs)
     (hadm : S.AdmissibleAll sets (exportsOf st₁)) (hρ : ρ < st₁.store.frames.size) :
-    ∃ st₁' st₂', evalImport fuel st₁ sets ρ = (.ok (), st₁') ∧ evalImport fuel st₂ sets ρ = (.ok (), st₂') ∧
+    ∃ r st₁' st₂', evalImport fuel st₁ sets ρ = (r, st₁') ∧ evalImport fuel st₂ sets ρ = (r, st₂') ∧
+      (r = .ok () ∨ r = .error (.other, none)) ∧
       (∀ i x, st₂'.store.binding i x = st₁'.store.binding i x) ∧
       (∀ ρ' x, st₂'.store.lookup ρ' x = st₁'.store.lookup ρ' x) := by
-  have hp := denoteAll_perm hperm sets hadm
+  have hp := denoteAll_perm_clash hperm (importEq st₁) sets hadm
   rw [hd] at hp
+  have heq : importEq st₂ = importEq st₁ := by funext v w; simp only [importEq, hstore]
   cases hd₂ : S.denoteAll sets (exportsOf st₂) with
   | none => simp [hd₂] at hp
   | some bs₂ =>
     simp only [hd₂] at hp
-    obtain ⟨st₁', e₁, b₁, o₁, p₁, -⟩ := import_union sets fuel st₁ ρ bs hfuel hip₁ hd hρ
-    obtain ⟨st₂', e₂, b₂, o₂, p₂, -⟩ := import_union sets fuel st₂ ρ bs₂ hfuel hip₂ hd₂ (by rw [hstore]; exact hρ)
-    have hbind : ∀ i x, st₂'.store.binding i x = st₁'.store.binding i x := by
-      intro i x
-      by_cases hi : i = ρ
-      · subst hi
-        rw [b₁ x, b₂ x, hstore]
-        simp only [S.override, hp x]
-      · simp only [Store.binding, o₁ i hi, o₂ i hi, hstore]
-    refine ⟨st₁', st₂', e₁, e₂, hbind, fun ρ' x => ?_⟩
-    apply Lib.lookup_congr_chain
-    · apply Store.chain_congr
-      intro i
-      rw [p₂ i, p₁ i, hstore]
-    · intro i _; exact hbind i x
+    obtain ⟨hov, hcl⟩ := hp
+    cases hc : Lib.clashB (importEq st₁) (fun _ => none) bs with
+    | true =>
+      have c₁ : S.Clash (importEq st₁) bs := (Lib.clash_iff _ _).2 hc
+      have c₂ : S.Clash (importEq st₂) bs₂ := by
+        rw [heq]; exact (Lib.clash_iff _ _).2 (by rw [← hcl]; exact hc)
+      obtain ⟨st₁', e₁, s₁, -⟩ := import_conflict_is_error sets fuel st₁ ρ bs hfuel hip₁ hd c₁
+      obtain ⟨st₂', e₂, s₂, -⟩ := import_conflict_is_error sets fuel st₂ ρ bs₂ hfuel hip₂ hd₂ c₂
+      have hs : st₂'.store = st₁'.store := by rw [s₁, s₂]; exact hstore
+      exact ⟨_, st₁', st₂', e₁, e₂, .inr rfl, fun i x => by rw [hs], fun ρ' x => by rw [hs]⟩
+    | false =>
+      have c₁ : ¬ S.Clash (importEq st₁) bs := fun h => by
+        rw [(Lib.clash_iff _ _).1 h] at hc; cases hc
+      have c₂ : ¬ S.Clash (importEq st₂) bs₂ := fun h => by
+        rw [heq] at h
+        have := (Lib.clash_iff _ _).1 h
+        rw [← hcl, hc] at this; cases this
+      obtain ⟨st₁', e₁, b₁, o₁, p₁, -⟩ := import_union sets fuel st₁ ρ bs hfuel hip₁ hd c₁ hρ
+      obtain ⟨st₂', e₂, b₂, o₂, p₂, -⟩ := import_union sets fuel st₂ ρ bs₂ hfuel hip₂ hd₂ c₂
+        (by rw [hstore]; exact hρ)
+      have hbind : ∀ i x, st₂'.store.binding i x = st₁'.store.binding i x := by
+        intro i x
+        by_cases hi : i = ρ
+        · subst hi
+          rw [b₁ x, b₂ x, hstore, hov]
+        · simp only [Store.binding, o₁ i hi, o₂ i hi, hstore]
+      refine ⟨_, st₁', st₂', e₁, e₂, .inl rfl, hbind, fun ρ' x => ?_⟩
+      apply Lib.lookup_congr_chain
+      · apply Store.chain_congr
+        intro i
+        rw [p₂ i, p₁ i, hstore]
+      · intro i _; exact hbind i x
 
 /-- the same library with its exports listed in the other order -/
 def demoState' : State :=
   { factories := [(demoLib, .native [("b", .num (.int 2)), ("a", .num (.int 1))])] }
 
-example : ∃ st₁' st₂',
-    evalImport 5 { demoState with store := Store.root } [.prefix (.direct demoLib none) "m."] 0 = (.ok (), st₁') ∧
-    evalImport 5 { demoState' with store := Store.root } [.prefix (.direct demoLib none) "m."] 0 = (.ok (), st₂') ∧
+example : ∃ r st₁' st₂',
+    evalImport 5 { demoState with store := Store.root } [.prefix (.direct demoLib none) "m."] 0 = (r, st₁') ∧
+    evalImport 5 { demoState' with store := Store.root } [.prefix (.direct demoLib none) "m."] 0 = (r, st₂') ∧
     ∀ ρ' x, st₂'.store.lookup ρ' x = st₁'.store.lookup ρ' x := by
   have demo_perm : S.PermExports (exportsOf { demoState with store := Store.root })
       (exportsOf { demoState' with store := Store.root }) := by
@@ -225,7 +307,7 @@ example : ∃ st₁' st₂',
       simp only [exportsOf, demoState, demoState', libLookup, if_true, S.PermOpt]
       exact List.Perm.swap _ _ _
     · simp [exportsOf, demoState, demoState', libLookup, h, S.PermOpt]
-  obtain ⟨a, b, h1, h2, -, h3⟩ := import_deterministic [.prefix (.direct demoLib none) "m."] 5
+  obtain ⟨r, a, b, h1, h2, -, -, h3⟩ := import_deterministic [.prefix (.direct demoLib none) "m."] 5
     { demoState with store := Store.root } { demoState' with store := Store.root } 0
     [("m.a", .num (.int 1)), ("m.b", .num (.int 2))]
     (by simp [fuelNeededAll, S.fuelNeeded]) (by simp [demoState]) (by simp [demoState']) rfl demo_perm
@@ -238,23 +320,123 @@ example : ∃ st₁' st₂',
       subst hbs
       simp [S.Admissible])
     (by simp [Store.root])
-  exact ⟨a, b, h1, h2, h3⟩
+  exact ⟨r, a, b, h1, h2, h3⟩
 
-/-- Admissibility cannot be dropped: `(rename (m) (a c) (b c))` binds `c` twice, and which binding
-survives depends on the order of the export list — in the Rust code, on `HashMap` iteration order.
-(Finding: for such a declaration the outcome is NOT the same on every run.) -/
-theorem order_matters_without_admissible :
+/-- Without admissibility of the single sets, the order of the export lists still cannot turn an
+error into a success or the other way round, PROVIDED the comparison `importEq` is symmetric and
+transitive on the values that are imported (it is not in general: see
+`order_still_matters_for_equal_values`): then both runs fail with `.other`, or both succeed and
+bind every name of frame `ρ` to the same value or to two values that `importEq` identifies. -/
+theorem import_order_independent (sets : List ImportSet) (fuel : Nat) (st₁ st₂ : State) (ρ : Nat)
+    (bs : S.Bindings) (hfuel : fuelNeededAll sets + 1 ≤ fuel)
+    (hip₁ : ∀ s ∈ sets, S.leaf s ∉ st₁.inProgress) (hip₂ : ∀ s ∈ sets, S.leaf s ∉ st₂.inProgress)
+    (hstore : st₂.store = st₁.store) (hperm : S.PermExports (exportsOf st₁) (exportsOf st₂))
+    (hd : S.denoteAll sets (exportsOf st₁) = some bs) (hρ : ρ < st₁.store.frames.size)
+    (hsymm : ∀ p ∈ bs, ∀ q ∈ bs, importEq st₁ p.2 q.2 = true → importEq st₁ q.2 p.2 = true)
+    (htrans : ∀ p ∈ bs, ∀ q ∈ bs, ∀ r ∈ bs, importEq st₁ p.2 q.2 = true → importEq st₁ q.2 r.2 = true →
+      importEq st₁ p.2 r.2 = true) :
+    ∃ st₁' st₂',
+      (evalImport fuel st₁ sets ρ = (.error (.other, none), st₁') ∧
+        evalImport fuel st₂ sets ρ = (.error (.other, none), st₂')) ∨
+      (evalImport fuel st₁ sets ρ = (.ok (), st₁') ∧ evalImport fuel st₂ sets ρ = (.ok (), st₂') ∧
+        ∀ x, st₁'.store.binding ρ x = st₂'.store.binding ρ x ∨
+          ∃ v w, st₁'.store.binding ρ x = some v ∧ st₂'.store.binding ρ x = some w ∧
+            importEq st₁ v w = true) := by
+  have heq : importEq st₂ = importEq st₁ := by funext v w; simp only [importEq, hstore]
+  have hflat := denoteAll_permFlat hperm sets
+  rw [hd] at hflat
+  cases hd₂ : S.denoteAll sets (exportsOf st₂) with
+  | none => simp [hd₂, S.PermOpt] at hflat
+  | some bs₂ =>
+    simp only [hd₂, S.PermOpt] at hflat
+    -- transitivity, for both lists, in the form the lemma wants
+    let P : Value → Prop := fun v => ∃ p ∈ bs, p.2 = v
+    have hT : ∀ u v w, P u → P v → P w → importEq st₁ u v = true → importEq st₁ v w = true →
+        importEq st₁ u w = true := by
+      rintro u v w ⟨p, hp, rfl⟩ ⟨q, hq, rfl⟩ ⟨r, hr, rfl⟩
+      exact htrans p hp q hq r hr
+    have hcompat : ∀ l : S.Bindings, l.Perm bs → ¬ S.Clash (importEq st₁) l → S.Compatible (importEq st₁) l := by
+      intro l hl hnc
+      have hc : Lib.clashB (importEq st₁) (fun _ => none) l = false := by
+        cases h : Lib.clashB (importEq st₁) (fun _ => none) l with
+        | false => rfl
+        | true => exact absurd ((Lib.clash_iff _ _).2 h) hnc
+      exact (Lib.compatible_of_not_clashB hT l (fun _ => none)
+        (fun p hp => ⟨p, hl.mem_iff.1 hp, rfl⟩) (fun _ _ h => by cases h) hc).2
+    have hsymm₂ : ∀ p ∈ bs₂, ∀ q ∈ bs₂, importEq st₁ p.2 q.2 = true → importEq st₁ q.2 p.2 = true :=
+      fun p hp q hq => hsymm p (hflat.mem_iff.2 hp) q (hflat.mem_iff.2 hq)
+    by_cases c₁ : S.Clash (importEq st₁) bs
+    · have c₂ : S.Clash (importEq st₂) bs₂ := by
+        rw [heq]
+        refine Classical.byContradiction fun hn => ?_
+        have := Lib.compatible_perm hflat.symm hsymm₂ (hcompat bs₂ hflat.symm hn)
+        exact Lib.not_clash_of_compatible this c₁
+      obtain ⟨st₁', e₁, -⟩ := import_conflict_is_error sets fuel st₁ ρ bs hfuel hip₁ hd c₁
+      obtain ⟨st₂', e₂, -⟩ := import_conflict_is_error sets fuel st₂ ρ bs₂ hfuel hip₂ hd₂ c₂
+      exact ⟨st₁', st₂', .inl ⟨e₁, e₂⟩⟩
+    · have hc₁ := hcompat bs (List.Perm.refl _) c₁
+      have hc₂ := Lib.compatible_perm hflat hsymm hc₁
+      have c₂ : ¬ S.Clash (importEq st₂) bs₂ := by rw [heq]; exact Lib.not_clash_of_compatible hc₂
+      obtain ⟨st₁', e₁, b₁, -⟩ := import_union sets fuel st₁ ρ bs hfuel hip₁ hd c₁ hρ
+      obtain ⟨st₂', e₂, b₂, -⟩ := import_union sets fuel st₂ ρ bs₂ hfuel hip₂ hd₂ c₂
+        (by rw [hstore]; exact hρ)
+      refine ⟨st₁', st₂', .inr ⟨e₁, e₂, fun x => ?_⟩⟩
+      rw [b₁ x, b₂ x, hstore]
+      simp only [S.override]
+      rcases Lib.asMap_perm_compatible hflat hsymm hc₁ x with h | ⟨v, w, hv, hw, he⟩
+      · left; rw [h]
+      · right; exact ⟨v, w, by rw [hv], by rw [hw], he⟩
+
+/-- The witness of the former finding is now rejected whatever the order of the export list:
+`(rename (m) (a c) (b c))` over a library exporting `a = 1`, `b = 2` is the error `.other` for the
+export order `a, b` and for the order `b, a`. -/
+theorem conflict_rejected_whatever_the_order :
+    (∃ st', evalImport 5 { demoState with store := Store.root }
+      [.rename (.direct demoLib none) [("a", "c"), ("b", "c")]] 0 = (.error (.other, none), st')) ∧
+    (∃ st', evalImport 5 { demoState' with store := Store.root }
+      [.rename (.direct demoLib none) [("a", "c"), ("b", "c")]] 0 = (.error (.other, none), st')) := by
+  constructor
+  · obtain ⟨st', h, -⟩ := import_conflict_is_error
+      [.rename (.direct demoLib none) [("a", "c"), ("b", "c")]] 5
+      { demoState with store := Store.root } 0 [("c", .num (.int 1)), ("c", .num (.int 2))]
+      (by simp [fuelNeededAll, S.fuelNeeded]) (by simp [demoState])
+      (by simp [S.denoteAll, S.denote, exportsOf, demoState, demoLib, libLookup, S.renameTarget, List.lookup])
+      (by rw [Lib.clash_iff]; simp [Lib.clashB, Lib.upd, importEq, Prim.derivedEq, Num.eq, Num.upcast])
+    exact ⟨st', h⟩
+  · obtain ⟨st', h, -⟩ := import_conflict_is_error
+      [.rename (.direct demoLib none) [("a", "c"), ("b", "c")]] 5
+      { demoState' with store := Store.root } 0 [("c", .num (.int 2)), ("c", .num (.int 1))]
+      (by simp [fuelNeededAll, S.fuelNeeded]) (by simp [demoState'])
+      (by simp [S.denoteAll, S.denote, exportsOf, demoState', demoLib, libLookup, S.renameTarget, List.lookup])
+      (by rw [Lib.clash_iff]; simp [Lib.clashB, Lib.upd, importEq, Prim.derivedEq, Num.eq, Num.upcast])
+    exact ⟨st', h⟩
+
+/-- a procedure `(lambda () 1)` -/
+def demoLam : Lambda := .mk ⟨[], none⟩ [] [.prim (.int 1) none]
+
+/-- RESIDUAL FINDING. The comparison is the derived `PartialEq` of values, which is not identity:
+it ignores the environment of a procedure (and the exactness of a number). Two closures with the
+same text over DIFFERENT frames are therefore "the same binding": `(rename (m) (a c) (b c))` over
+a library exporting two such closures is accepted, and which of the two `c` is bound to still
+depends on the order of the export list (in the Rust code, on `HashMap` iteration order). -/
+theorem order_still_matters_for_equal_values (st : State) :
     ∃ (s : ImportSet) (ex ex' : LibName → Option S.Bindings) (a b : S.Bindings),
       S.PermExports ex ex' ∧ S.denote s ex = some a ∧ S.denote s ex' = some b ∧
-      ¬ S.Admissible a ∧ S.asMap a "c" ≠ S.asMap b "c" := by
+      ¬ S.Clash (importEq st) a ∧ ¬ S.Clash (importEq st) b ∧ S.asMap a "c" ≠ S.asMap b "c" := by
   refine ⟨.rename (.direct demoLib none) [("a", "c"), ("b", "c")],
-    fun _ => some [("a", .num (.int 1)), ("b", .num (.int 2))],
-    fun _ => some [("b", .num (.int 2)), ("a", .num (.int 1))],
-    [("c", .num (.int 1)), ("c", .num (.int 2))], [("c", .num (.int 2)), ("c", .num (.int 1))],
-    fun _ => List.Perm.swap _ _ _, ?_, ?_, ?_, ?_⟩
+    fun _ => some [("a", .closure demoLam 1), ("b", .closure demoLam 2)],
+    fun _ => some [("b", .closure demoLam 2), ("a", .closure demoLam 1)],
+    [("c", .closure demoLam 1), ("c", .closure demoLam 2)],
+    [("c", .closure demoLam 2), ("c", .closure demoLam 1)],
+    fun _ => List.Perm.swap _ _ _, ?_, ?_, ?_, ?_, ?_⟩
   · simp [S.denote, S.renameTarget, List.lookup]
   · simp [S.denote, S.renameTarget, List.lookup]
-  · simp [S.Admissible]
+  · rw [Lib.clash_iff]
+    simp [Lib.clashB, Lib.upd, importEq, Prim.derivedEq, Prim.valueEq, demoLam, Lambda.beq,
+      Expr.beqList, Expr.beq, Def.beqList]
+  · rw [Lib.clash_iff]
+    simp [Lib.clashB, Lib.upd, importEq, Prim.derivedEq, Prim.valueEq, demoLam, Lambda.beq,
+      Expr.beqList, Expr.beq, Def.beqList]
   · simp [S.asMap]
 
 end Ruschm.C12
